@@ -7,6 +7,7 @@ import PyDBMLProofs.Props.C02Group
 import PyDBMLProofs.Props.C02FlagsTables
 import PyDBMLProofs.Props.C02Inline
 import PyDBMLProofs.Props.C02Project
+import PyDBMLProofs.Props.C02EnumNote
 namespace PyDBML
 namespace C02
 open Lex Grammar Build
@@ -15,7 +16,8 @@ variable {σ : Type}
 
 /-- what a document of the covered language declares -/
 structure DocSpec (σ : Type) where
-  enums : List ESpec := []
+  /-- enums: a name and the items (name, note text - empty for none) -/
+  enums : List ESpecN := []
   tables : List (FTab σ)
   /-- the references written inline, among the settings of their first column, in document order -/
   inl : List RSpec := []
@@ -29,7 +31,7 @@ structure DocSpec (σ : Type) where
 
 def mkProject (p : Str × List (Str × Str)) : Project := { name := p.1, items := p.2 }
 
-def mkEnum (e : ESpec) : Enum := plainEnum e.1 e.2
+def mkEnum (e : ESpecN) : Enum := mkEnumN e
 
 def mkGroup (g : Str × List Nat) : Group := { name := g.1, items := g.2 }
 
@@ -43,7 +45,7 @@ def DocSpec.db (F : ColForm σ) (ap : Bool) (d : DocSpec σ) : Db :=
     groups := d.groups.map mkGroup, sticky := d.sticky, project := d.project.map mkProject, allowProps := ap }
 
 structure DocOK (F : ColForm σ) (ap : Bool) (d : DocSpec σ) : Prop where
-  enums : ∀ e ∈ d.enums, ESpecOK e
+  enums : ∀ e ∈ d.enums, ESpecNOK e
   /-- enum names are pairwise different (all enums are in schema public) -/
   enumNames : d.enums.Pairwise (fun a b => a.1 ≠ b.1)
   tables : ∀ t ∈ d.tables, F.specOK ap t
@@ -107,7 +109,7 @@ theorem gnames_ok (F : ColForm σ) (ap : Bool) (d : DocSpec σ) (h : DocOK F ap 
 
 def DocSpec.forms (F : ColForm σ) (ap : Bool) (d : DocSpec σ) (h : DocOK F ap d) : List (EForm ap) :=
   d.project.toList.pmap (fun p hp => projectE ap p.1 p.2 hp) h.project
-  ++ d.enums.pmap (fun e he => enumE ap e he) h.enums
+  ++ d.enums.pmap (fun e he => enumEN ap e he) h.enums
   ++ d.tables.pmap (fun t ht => F.tableE ap t ht) h.tables
   ++ (d.refs.map (F.rtext d.tables)).pmap (fun r hr => refE ap r hr) (rtext_ok F ap d h)
   ++ d.groups.pmap (fun g hg => groupE ap g.1 (F.gnames d.tables g) hg.1 hg.2) (gnames_ok F ap d h)
@@ -115,14 +117,14 @@ def DocSpec.forms (F : ColForm σ) (ap : Bool) (d : DocSpec σ) (h : DocOK F ap 
 
 /-- the blueprints the document rule reads -/
 def DocSpec.elems (F : ColForm σ) (d : DocSpec σ) : List Bp.Elem :=
-  d.project.toList.map (fun p => Bp.Elem.project (projectBpOf p.1 p.2)) ++ d.enums.map mkEnumElem ++ d.tables.map F.mkElem
+  d.project.toList.map (fun p => Bp.Elem.project (projectBpOf p.1 p.2)) ++ d.enums.map mkEnumElemN ++ d.tables.map F.mkElem
     ++ (d.refs.map (F.rtext d.tables)).map mkRefElem
     ++ d.groups.map (fun g => Bp.Elem.group (groupBpOf g.1 (F.gnames d.tables g)))
     ++ d.sticky.map mkStickyElem
 
 /-- the texts of the elements, in the order the renderer writes them -/
 def DocSpec.texts (F : ColForm σ) (d : DocSpec σ) : List Str :=
-  d.project.toList.map (fun p => projectText p.1 p.2) ++ d.enums.map (fun e => enumText e.1 e.2) ++ d.tables.map F.tabText
+  d.project.toList.map (fun p => projectText p.1 p.2) ++ d.enums.map (fun e => enumTextN e.1 e.2) ++ d.tables.map F.tabText
     ++ (d.refs.map (F.rtext d.tables)).map refText
     ++ d.groups.map (fun g => groupText g.1 (F.gnames d.tables g))
     ++ d.sticky.map (fun s => stickyText s.name s.text)
@@ -132,7 +134,7 @@ theorem DocSpec.forms_elems (F : ColForm σ) (ap : Bool) (d : DocSpec σ) (h : D
   simp only [DocSpec.forms, DocSpec.elems, List.map_append]
   rw [map_pmap_const (fun (p : Str × List (Str × Str)) (hp : ProjectOK p.1 p.2) => projectE ap p.1 p.2 hp) (·.elem)
       (fun p => Bp.Elem.project (projectBpOf p.1 p.2)) (fun _ _ => rfl),
-    map_pmap_const (fun e he => enumE ap e he) (·.elem) mkEnumElem (fun _ _ => rfl),
+    map_pmap_const (fun e he => enumEN ap e he) (·.elem) mkEnumElemN (fun _ _ => rfl),
     map_pmap_const (fun t ht => F.tableE ap t ht) (·.elem) F.mkElem (fun _ _ => rfl),
     map_pmap_const (fun r hr => refE ap r hr) (·.elem) mkRefElem (fun _ _ => rfl),
     map_pmap_const (fun g hg => groupE ap g.1 (F.gnames d.tables g) hg.1 hg.2) (·.elem)
@@ -144,7 +146,7 @@ theorem DocSpec.forms_texts (F : ColForm σ) (ap : Bool) (d : DocSpec σ) (h : D
   simp only [DocSpec.forms, DocSpec.texts, List.map_append]
   rw [map_pmap_const (fun (p : Str × List (Str × Str)) (hp : ProjectOK p.1 p.2) => projectE ap p.1 p.2 hp) (·.text)
       (fun p => projectText p.1 p.2) (fun p hp => projectE_text ap p.1 p.2 hp),
-    map_pmap_const (fun e he => enumE ap e he) (·.text) (fun e => enumText e.1 e.2) (fun e he => enumE_text ap e he),
+    map_pmap_const (fun e he => enumEN ap e he) (·.text) (fun e => enumTextN e.1 e.2) (fun e he => enumEN_text ap e he),
     map_pmap_const (fun t ht => F.tableE ap t ht) (·.text) F.tabText (fun t ht => F.tableE_text ap t ht),
     map_pmap_const (fun r hr => refE ap r hr) (·.text) refText (fun r hr => refE_text ap r hr),
     map_pmap_const (fun g hg => groupE ap g.1 (F.gnames d.tables g) hg.1 hg.2) (·.text)
@@ -163,37 +165,35 @@ theorem DocSpec.forms_ne (F : ColForm σ) (ap : Bool) (d : DocSpec σ) (h : DocO
 
 /-! ### the build of such a document -/
 
-theorem buildEnum_plain (e : ESpec) : buildEnum (plainEnumBp e.1 e.2) = .ok (mkEnum e) := by
-  simp [buildEnum, plainEnumBp, mkEnum, plainEnum, plainItem, buildEnumItem, noteText, pure, Except.pure,
-    List.map_map, Function.comp_def]
+theorem buildEnum_plain (e : ESpecN) (he : ESpecNOK e) : buildEnum (enumBpN e.1 e.2) = .ok (mkEnum e) := buildEnum_N e he
 
-theorem foldlM_enums : ∀ (todo done : List ESpec), (done ++ todo).Pairwise (fun a b => a.1 ≠ b.1) →
-    (todo.map fun e => plainEnumBp e.1 e.2).foldlM enumStep (done.map mkEnum) = .ok ((done ++ todo).map mkEnum) := by
+theorem foldlM_enums : ∀ (todo done : List ESpecN), (∀ e ∈ todo, ESpecNOK e) → (done ++ todo).Pairwise (fun a b => a.1 ≠ b.1) →
+    (todo.map fun e => enumBpN e.1 e.2).foldlM enumStep (done.map mkEnum) = .ok ((done ++ todo).map mkEnum) := by
   intro todo
   induction todo with
-  | nil => intro done _; simp [pure, Except.pure]
+  | nil => intro done _ _; simp [pure, Except.pure]
   | cons e r ih =>
-    intro done hp
+    intro done hok hp
     have hd : ∀ u ∈ done, u.1 ≠ e.1 := by
       intro u hu
       have := List.pairwise_append.mp hp
       exact this.2.2 u hu e (by simp)
     rw [List.map_cons, List.foldlM_cons]
-    have hstep : enumStep (done.map mkEnum) (plainEnumBp e.1 e.2) = .ok ((done ++ [e]).map mkEnum) := by
+    have hstep : enumStep (done.map mkEnum) (enumBpN e.1 e.2) = .ok ((done ++ [e]).map mkEnum) := by
       unfold enumStep
-      simp only [buildEnum_plain, bind, Except.bind]
+      simp only [buildEnum_plain e (hok e (by simp)), bind, Except.bind]
       unfold addEnum
       have hno : (done.map mkEnum).any (fun x => x.name == (mkEnum e).name && x.schema == (mkEnum e).schema) = false := by
         rw [List.any_eq_false]
         intro x hx
         obtain ⟨u, hu, rfl⟩ := List.mem_map.mp hx
-        simp only [mkEnum, plainEnum, Bool.and_eq_true, beq_iff_eq, not_and]
+        simp only [mkEnum, mkEnumN, Bool.and_eq_true, beq_iff_eq, not_and]
         intro hname
         exact absurd hname (hd u hu)
       simp [hno, pure, Except.pure]
     rw [hstep]
     simp only [bind, Except.bind]
-    have := ih (done ++ [e]) (by simpa using hp)
+    have := ih (done ++ [e]) (fun q hq => hok q (by simp [hq])) (by simpa using hp)
     simpa using this
 
 theorem splitDot_no_dot' (t : Str) (h : '.' ∉ t) : splitDot t = [t] := by
@@ -273,28 +273,28 @@ theorem foldlM_groups (F : ColForm σ) (ts : List (FTab σ)) (hr : F.Resolvable 
 
 theorem DocSpec.build (F : ColForm σ) (ap : Bool) (d : DocSpec σ) (h : DocOK F ap d) :
     buildDatabase ap (d.elems F) = .ok (d.db F ap) := by
-  have hE : enumBps (d.elems F) = d.enums.map fun e => plainEnumBp e.1 e.2 := by
-    simp [enumBps, DocSpec.elems, mkEnumElem, ColForm.mkElem, mkRefElem, mkStickyElem, List.filterMap_append,
+  have hE : enumBps (d.elems F) = d.enums.map fun e => enumBpN e.1 e.2 := by
+    simp [enumBps, DocSpec.elems, mkEnumElemN, ColForm.mkElem, mkRefElem, mkStickyElem, List.filterMap_append,
       List.filterMap_map, Function.comp_def]
   have hT : tableBps (d.elems F) = d.tables.map fun t => F.tableBpC t.name t.cols t.comment := by
-    simp [tableBps, DocSpec.elems, mkEnumElem, ColForm.mkElem, mkRefElem, mkStickyElem, List.filterMap_append,
+    simp [tableBps, DocSpec.elems, mkEnumElemN, ColForm.mkElem, mkRefElem, mkStickyElem, List.filterMap_append,
       List.filterMap_map, Function.comp_def]
   have hG : groupBps (d.elems F) = d.groups.map fun g => groupBpOf g.1 (F.gnames d.tables g) := by
-    simp [groupBps, DocSpec.elems, mkEnumElem, ColForm.mkElem, mkRefElem, mkStickyElem, List.filterMap_append,
+    simp [groupBps, DocSpec.elems, mkEnumElemN, ColForm.mkElem, mkRefElem, mkStickyElem, List.filterMap_append,
       List.filterMap_map, Function.comp_def]
   have hS : stickyBps (d.elems F) = d.sticky.map fun s => ({ name := s.name, text := s.text } : Bp.StickyBp) := by
-    simp [stickyBps, DocSpec.elems, mkEnumElem, ColForm.mkElem, mkRefElem, mkStickyElem, List.filterMap_append,
+    simp [stickyBps, DocSpec.elems, mkEnumElemN, ColForm.mkElem, mkRefElem, mkStickyElem, List.filterMap_append,
       List.filterMap_map, Function.comp_def]
   have hP : projectBp (d.elems F) = d.project.map fun p => projectBpOf p.1 p.2 := by
     cases hpj : d.project <;>
-      simp [projectBp, DocSpec.elems, hpj, mkEnumElem, ColForm.mkElem, mkRefElem, mkStickyElem, List.filterMap_append,
+      simp [projectBp, DocSpec.elems, hpj, mkEnumElemN, ColForm.mkElem, mkRefElem, mkStickyElem, List.filterMap_append,
         List.filterMap_map, Function.comp_def]
   have hR : refBlueprints (d.elems F)
       = (d.inl.map (fun r => (r, true)) ++ d.refs.map (fun r => (r, false))).map (F.bpB d.tables) := by
     have h0 : refBlueprints (d.project.toList.map fun p => Bp.Elem.project (projectBpOf p.1 p.2)) = [] := by
       cases d.project <;> simp [refBlueprints]
-    have h1 : refBlueprints (d.enums.map mkEnumElem) = [] := by
-      simp [refBlueprints, mkEnumElem, List.flatMap_map]
+    have h1 : refBlueprints (d.enums.map mkEnumElemN) = [] := by
+      simp [refBlueprints, mkEnumElemN, List.flatMap_map]
     have h2 : refBlueprints (d.tables.map F.mkElem) = d.inl.map (fun r => F.bpB d.tables (r, true)) := by
       have hw : refBlueprints (d.tables.map F.mkElem) = (F.written d.tables).map ibp := by
         unfold ColForm.written
@@ -317,7 +317,7 @@ theorem DocSpec.build (F : ColForm σ) (ap : Bool) (d : DocSpec σ) (h : DocOK F
       simp [refBlueprints, List.flatMap_map]
     simp only [DocSpec.elems, refBlueprints_append, h0, h1, h2, h4, h5, refBlueprints_refElems]
     simp [List.map_map, Function.comp_def, ColForm.bpB_false]
-  have hFe := foldlM_enums d.enums [] (by simpa using h.enumNames)
+  have hFe := foldlM_enums d.enums [] h.enums (by simpa using h.enumNames)
   simp only [List.map_nil, List.nil_append] at hFe
   have hFt := F.foldlM_tables ap (d.enums.map mkEnum) d.tables [] (by simpa using h.resolvable.tnames)
     (fun t ht => (h.tables t ht).2.1) h.noShadow
@@ -359,29 +359,7 @@ theorem DocSpec.build (F : ColForm σ) (ap : Bool) (d : DocSpec σ) (h : DocOK F
 
 /-! ### the rendering of such a database -/
 
-theorem renderEnum_plain (e : ESpec) (he : ESpecOK e) : Dbml.renderEnum (mkEnum e) = enumText e.1 e.2 := by
-  obtain ⟨en, ns⟩ := e
-  obtain ⟨_, hns, hne⟩ := he
-  have hitems : (plainEnum en ns).items.map Dbml.renderEnumItem = ns.map itemStr := by
-    simp [plainEnum, Dbml.renderEnumItem, Dbml.optComment, itemStr, List.map_map, Function.comp_def]
-  have hbody : Dbml.indent4 (joinNL (ns.map itemStr)) ++ ['\n'] = (ns.map itemStr).flatMap fun l => [' ', ' ', ' ', ' '] ++ l ++ ['\n'] := by
-    apply indent4_lines
-    · simpa using hne
-    · intro l hl
-      obtain ⟨n, hn, rfl⟩ := List.mem_map.mp hl
-      exact itemStr_ok n (hns n hn)
-    · intro l hl
-      obtain ⟨n, hn, rfl⟩ := List.mem_map.mp hl
-      exact ⟨'"', _, rfl, by decide⟩
-  unfold mkEnum Dbml.renderEnum
-  rw [hitems]
-  have h2 := itemsText_flatMap ns
-  rw [← hbody] at h2
-  have e1 : enumText en ns = lit "Enum " ++ ('"' :: en ++ ['"']) ++ lit " {" ++ ((itemsText ns ++ ['\n']) ++ ['}']) := by
-    simp [enumText, lit]
-  simp only
-  rw [e1, ← h2]
-  simp [plainEnum, Dbml.optComment, qualName, lit]
+theorem renderEnum_plain (e : ESpecN) (he : ESpecNOK e) : Dbml.renderEnum (mkEnum e) = enumTextN e.1 e.2 := renderEnum_N e he
 
 theorem ColForm.renderRef_ok' (F : ColForm σ) (db : Db) (ts : List (FTab σ)) (hdb : db.tables = ts.map F.mkTable)
     (r : RSpec) (hin : F.RSpecIn ts r) : Dbml.renderRef db (mkRef r) = .ok (refText (F.rtext ts r)) := by
@@ -439,7 +417,7 @@ theorem renderGroup_ok (F : ColForm σ) (ap : Bool) (d : DocSpec σ) (g : Str ×
 
 theorem DocSpec.render (F : ColForm σ) (ap : Bool) (d : DocSpec σ) (h : DocOK F ap d) :
     Dbml.renderDb (d.db F ap) = .ok (joinWith (lit "\n\n") (d.texts F)) := by
-  have henums : (d.db F ap).enums.map Dbml.renderEnum = d.enums.map fun e => enumText e.1 e.2 := by
+  have henums : (d.db F ap).enums.map Dbml.renderEnum = d.enums.map fun e => enumTextN e.1 e.2 := by
     simp only [DocSpec.db, List.map_map]
     apply List.map_congr_left
     intro e he
@@ -572,7 +550,8 @@ theorem resolveType_plain (enums : List Enum) (ty : Str) (hty : TypeOK ty) (hno 
 abbrev FlagDoc := DocSpec FCol
 
 /-- **C01 / C02 / C05 / C14 / C15: whole documents, end to end.**  A database holding
-    * any number of enums in schema public with pairwise different quoted names and plain quoted items,
+    * any number of enums in schema public with pairwise different quoted names and quoted items, each item possibly with
+      a one-line note (`"item" [note: 'text']`; the empty text stands for: no note),
     * any positive number of tables with pairwise different quoted names, each possibly under a one-line comment, each
       with any positive number of columns carrying any subset of `pk`, `increment`, `unique`, `not null`, possibly an
       integer, one-line string or backtick-expression default, a one-line note and (properties switch on) any number of arbitrary properties, whose type text
@@ -589,7 +568,7 @@ abbrev FlagDoc := DocSpec FCol
     from, the inline ones still inline on the same column and before the standalone ones.  The hypotheses on names are exactly the recorded findings (no dot in a table name, a column name is one
     comma-free piece that survives `strip('() ')`, no two columns of a table with one name). -/
 theorem flags_document_roundtrip_partial (ap : Bool) (d : FlagDoc)
-    (henums : ∀ e ∈ d.enums, NameOK e.1 ∧ (∀ n ∈ e.2, NameOK n) ∧ e.2 ≠ [])
+    (henums : ∀ e ∈ d.enums, NameOK e.1 ∧ (∀ it ∈ e.2, NameOK it.1 ∧ Plain it.2 ∧ hasTriple it.2 = false ∧ norm it.2 = it.2) ∧ e.2 ≠ [])
     (henames : d.enums.Pairwise (fun a b => a.1 ≠ b.1))
     (htabs : ∀ t ∈ d.tables, FlagTabOK ap t) (hne : d.tables ≠ [])
     (htn : d.tables.Pairwise (fun a b => a.name ≠ b.name)) (hnodot : ∀ t ∈ d.tables, '.' ∉ t.name)
@@ -621,14 +600,14 @@ theorem flags_document_roundtrip_partial (ap : Bool) (d : FlagDoc)
 
 /-- the rendered text of a small document of every covered kind (a test of the statement on one literal) -/
 example : joinWith (lit "\n\n") (DocSpec.texts flagForm
-      { enums := [(lit "status", [lit "new", lit "done"])],
+      { enums := [(lit "status", [(lit "new", []), (lit "done", lit "it's over")])],
         tables := [{ name := lit "a", cols := [{ name := lit "id", type := lit "int", pk := true }] },
                    { name := lit "b", cols := [{ name := lit "a id", type := lit "int", dflt := lit "1" }], comment := some (lit "child") }],
         refs := [{ kind := .manyToOne, t1 := 1, c1 := 0, t2 := 0, c2 := 0 }],
         groups := [(lit "g1", [1, 0])],
         sticky := [{ name := lit "todo", text := lit "check" }],
         project := some (lit "shop", [(lit "database_type", lit "PostgreSQL"), (lit "owner", lit "it's me")]) })
-    = lit "Project \"shop\" {\n    database_type: 'PostgreSQL'\n    owner: 'it\\'s me'\n}\n\nEnum \"status\" {\n    \"new\"\n    \"done\"\n}\n\nTable \"a\" {\n    \"id\" int [pk]\n}\n\n// child\nTable \"b\" {\n    \"a id\" int [default: 1]\n}\n\nRef {\n    \"b\".\"a id\" > \"a\".\"id\"\n}\n\nTableGroup \"g1\" {\n    \"b\"\n    \"a\"\n}\n\nNote todo {\n    'check'\n}" := by
+    = lit "Project \"shop\" {\n    database_type: 'PostgreSQL'\n    owner: 'it\\'s me'\n}\n\nEnum \"status\" {\n    \"new\"\n    \"done\" [note: 'it\\'s over']\n}\n\nTable \"a\" {\n    \"id\" int [pk]\n}\n\n// child\nTable \"b\" {\n    \"a id\" int [default: 1]\n}\n\nRef {\n    \"b\".\"a id\" > \"a\".\"id\"\n}\n\nTableGroup \"g1\" {\n    \"b\"\n    \"a\"\n}\n\nNote todo {\n    'check'\n}" := by
   decide +kernel
 
 /-- non-vacuity of the hypotheses on inline references: table `b` hosts `ref: > "a"."id"` on its first column and
